@@ -125,9 +125,15 @@ func spdxNode(r *rand.Rand, id string, p float64, sweep int) *sbom.Node {
 	}
 	if maybe(r, p) {
 		n.Suppliers = []*sbom.Person{{Name: pick(r, []string{"ACME Inc", "Jane Doe", "Ünï Org"}), IsOrg: r.Intn(2) == 0}}
+		if r.Intn(3) == 0 {
+			n.Suppliers[0].Email = pick(r, []string{"sbom@acme.example", "jane.doe+sbom@example.org"})
+		}
 	}
 	if maybe(r, p) {
 		n.Originators = []*sbom.Person{{Name: pick(r, []string{"Upstream Project", "John Roe"}), IsOrg: r.Intn(2) == 0}}
+		if r.Intn(3) == 0 {
+			n.Originators[0].Email = "upstream@project.example"
+		}
 	}
 	return n
 }
